@@ -143,6 +143,25 @@ def scen_snapshot():
         {"op": "idle"}]}
 
 
+def scen_mark_digits():
+    """Mark tags over 13 streams with ids that share leading digits (1 / 10 / 11 / 12): mark and unmark, then the
+    restart must show exactly the marked streams (a restart rebuilds the matches from the definition text)."""
+    return {"name": "mark-digits", "converters": [], "steps": [
+        {"op": "pcap", "name": "a.pcap", "packets": [pkt(1000 + i, i, "s%d" % i) for i in range(13)]},
+        {"op": "idle"},
+        {"op": "add", "name": "mark/m", "color": "red", "def": "id:10"},
+        {"op": "upd", "name": "mark/m", "markadd": [1]},
+        {"op": "upd", "name": "mark/m", "markdel": [1]},
+        {"op": "add", "name": "mark/n", "color": "red", "def": "id:12"},
+        {"op": "upd", "name": "mark/n", "markadd": [1, 2, 11]},
+        {"op": "upd", "name": "mark/n", "markdel": [2]},
+        {"op": "upd", "name": "mark/n", "markdel": [1]},
+        {"op": "add", "name": "generated/g", "color": "red", "def": "id:11,1"},
+        {"op": "upd", "name": "generated/g", "markadd": [10, 0]},
+        {"op": "upd", "name": "generated/g", "markdel": [1, 0]},
+        {"op": "idle"}]}
+
+
 def scen_mark_text():
     """A mark tag whose definition is not a plain id list, then mark operations on it."""
     return {"name": "mark-text", "converters": [], "steps": [
@@ -970,7 +989,7 @@ def main(tier, seed, replay=None):
     if replay:
         scens = [json.load(open(replay))["scenario"]]
     else:
-        scens = load_corpus() + [scen_tags(), scen_converters(), scen_snapshot()]      # corpus/C12: merge-shadow, mark-text, convert-job
+        scens = load_corpus() + [scen_tags(), scen_converters(), scen_snapshot(), scen_mark_digits()]      # corpus/C12: merge-shadow, mark-text, convert-job
         nrand = 8 if tier == "quick" else 40
         scens += [gen_scenario(rng, k) for k in range(nrand)]
     cuts = 2 if tier == "quick" else 4
